@@ -23,6 +23,7 @@ LEVEL = "exploration"
 RULE = ("block-style documents mixing plaintext with secrets at hash values and list elements (nested to depth 3), as plain, "
         "quoted and folded scalars, with interior spaces / line breaks, anchored + aliased secrets, duplicate un-anchored "
         "secrets, and look-alikes (xENC[, enc[, ENC without bracket, text containing ENC[ later); also files with no secret; "
+        "plaintexts holding CR / CRLF / LF / TAB; one to three files per invocation (anchor names recur from file to file); "
         "with and without --backup; through the real eyaml-rotate-keys main() and the stand-in eyaml. Non-trivial = the "
         "document holds >=1 secret or >=1 look-alike; distinct by document text and options")
 ASSUMPTIONS = ["the stand-in cipher replaces real PKCS7 (prescribed by the property's quantifier); whitespace = space and newline",
@@ -30,9 +31,11 @@ ASSUMPTIONS = ["the stand-in cipher replaces real PKCS7 (prescribed by the prope
 REACH = [("yamlpath/commands/eyaml_rotate_keys.py", "main,validateargs", "eyaml_rotate_keys.main"),
          ("yamlpath/eyaml/eyamlprocessor.py", "_find_eyaml_paths,find_eyaml_paths,decrypt_eyaml,encrypt_eyaml,set_eyaml_value,is_eyaml_value", "EYAMLProcessor")]
 SIZES = {"quick": 800, "thorough": 10000}
-REQUIRED_COUNTERS = ["rotations", "secrets_checked", "anchored_secret_docs", "folded_secrets", "no_secret_files", "lookalikes_checked", "backup_runs"]
+REQUIRED_COUNTERS = ["rotations", "secrets_checked", "anchored_secret_docs", "folded_secrets", "no_secret_files", "lookalikes_checked", "backup_runs",
+                     "multi_file_runs", "secrets_with_cr_lf_tab"]
 FAKE = os.path.join(VERIF_ROOT, "tools", "fake-eyaml")
-PLAIN = ["s3cret", "p@ss w0rd", "x", "multi word secret value", "0123456789" * 9, "a:b", "tr=ue"]
+PLAIN = ["s3cret", "p@ss w0rd", "x", "multi word secret value", "0123456789" * 9, "a:b", "tr=ue",
+         "line1\r\nline2\r\nline3", "cr\ronly", "two\nlines", "tab\tsep", "-----BEGIN KEY-----\r\nAAAA\r\n-----END KEY-----"]
 
 
 def stream(ident, n):
@@ -73,7 +76,7 @@ class Gen:
         self.leaves = []          # (kind, plaintext) in document order of *definition sites*
         self.anchor_n = 0
         self.anchors = []         # (name, plaintext)
-        self.n_secret = self.n_look = self.n_folded = 0
+        self.n_secret = self.n_look = self.n_folded = self.n_ctl = 0
 
     def leaf(self, indent, prefix):
         r = self.r
@@ -82,6 +85,8 @@ class Gen:
         if x < 0.32:
             pt = r.choice(PLAIN)
             ct = enc("old", pt)
+            if any(c in pt for c in "\r\n\t"):
+                self.n_ctl += 1
             style = r.choice(["plain", "plain", "dq", "folded", "spaced", "anchor"])
             self.n_secret += 1
             if style == "plain":
@@ -156,40 +161,50 @@ def scalar_leaves(data):
     return out
 
 
-def run_case(ctx, rng, box, backup, no_secret=False):
+def build_file(ctx, rng, no_secret):
     g = Gen(rng)
     for _ in range(20):
         text = g.build()
-        if no_secret and g.n_secret:
-            g = Gen(rng)
-            continue
-        if not no_secret and not g.n_secret:
-            g = Gen(rng)
-            continue
-        break
+        if bool(g.n_secret) == (not no_secret):
+            break
+        g = Gen(rng)
     else:
-        return
+        return None
     try:
         before_data = yp.load(text)
     except yp.LoadError:
         ctx.count("generated_doc_rejected")
-        return
+        return None
     leaves0 = scalar_leaves(before_data)
     if len(leaves0) != len(g.leaves):
         ctx.count("generator_leaf_mismatch")
-        return
+        return None
+    return {"g": g, "text": text, "before": before_data, "leaves0": leaves0, "no_secret": no_secret}
+
+
+def run_case(ctx, rng, box, backup, no_secret=False):
+    """One eyaml-rotate-keys invocation over 1-3 files (anchor names S1, S2.. recur from file to file)."""
+    nfiles = rng.choice([1, 1, 2, 3])
+    files = []
+    for i in range(nfiles):
+        f = build_file(ctx, rng, no_secret if i == 0 else rng.random() < 0.15)
+        if f is None:
+            return
+        files.append(f)
     shutil.rmtree(box, ignore_errors=True)
     os.makedirs(box)
     for name, body in (("old.pub", "PUB:old"), ("old.priv", "PRIV:old"), ("new.pub", "PUB:new"), ("new.priv", "PRIV:new")):
         with open(os.path.join(box, name), "w") as f:
             f.write(body + "\n")
-    target = os.path.join(box, "doc.yaml")
-    with open(target, "w") as f:
-        f.write(text)
-    stale = backup and rng.random() < 0.3
-    if stale:
-        with open(target + ".bak", "w") as f:
-            f.write("stale backup\n")
+    for i, fl in enumerate(files):
+        fl["name"] = "doc.yaml" if i == 0 else "doc%d.yaml" % i
+        fl["target"] = os.path.join(box, fl["name"])
+        with open(fl["target"], "w", newline="") as f:
+            f.write(fl["text"])
+        fl["stale"] = backup and rng.random() < 0.3
+        if fl["stale"]:
+            with open(fl["target"] + ".bak", "w") as f:
+                f.write("stale backup\n")
     logf = os.path.join(box, "eyaml.log")
     os.environ["VF_EYAML_LOG"] = logf
     argv = ["-x", FAKE, "-i", os.path.join(box, "old.priv"), "-c", os.path.join(box, "old.pub"),
@@ -197,42 +212,69 @@ def run_case(ctx, rng, box, backup, no_secret=False):
     if backup:
         argv.append("-b")
         ctx.counters["backup_runs"] = ctx.counters.get("backup_runs", 0) + 1
-    case = {"doc": text, "backup": backup, "stale_bak": stale}
-    r = cli.run("eyaml_rotate_keys", argv + [target], sandbox=box)
+    case = {"docs": [fl["text"] for fl in files], "backup": backup, "stale_bak": [fl["stale"] for fl in files]}
+    r = cli.run("eyaml_rotate_keys", argv + [fl["target"] for fl in files], sandbox=box)
     os.environ.pop("VF_EYAML_LOG", None)
     ctx.evaluations += 1
     ctx.counters["rotations"] = ctx.counters.get("rotations", 0) + 1
-    if g.n_secret or g.n_look:
-        ctx.mark_nontrivial([text, backup, stale])
+    if nfiles > 1:
+        ctx.counters["multi_file_runs"] = ctx.counters.get("multi_file_runs", 0) + 1
+    if any(fl["g"].n_secret or fl["g"].n_look for fl in files):
+        ctx.mark_nontrivial([case["docs"], backup, case["stale_bak"]])
     if r["exc"]:
         ctx.violation("crash", {"case": case, "summary": r["exc"][:200]})
         return
     if r["code"] != 0:
         ctx.violation("nonzero-exit", {"case": case, "summary": "exit %d: %s" % (r["code"], r["err"][:200])})
         return
-    after_bytes = open(target, "rb").read()
     log = [json.loads(ln) for ln in open(logf)] if os.path.exists(logf) else []
-    if no_secret:
+    nsec_total = 0
+    for fi, fl in enumerate(files):
+        n = check_file(ctx, dict(case, file_index=fi), fl, r, backup)
+        if n is None:
+            return
+        nsec_total += n
+    # ---- protocol log: exactly once, over the whole invocation ----------------------------------------------
+    decs = [e for e in log if e["op"] == "decrypt"]
+    encs = [e for e in log if e["op"] == "encrypt"]
+    if len(decs) != nsec_total or len(encs) != nsec_total:
+        ctx.violation("not-exactly-once", {"case": case, "summary": "%d secret nodes but %d decrypt / %d encrypt invocations" % (
+            nsec_total, len(decs), len(encs))})
+        return
+    if any(e["code"] != 0 for e in log) or any(e.get("key") != "old" for e in decs) or any(e.get("key") != "new" for e in encs):
+        ctx.violation("wrong-key-used", {"case": case, "summary": repr(log)[:300]})
+        return
+    if sorted(e.get("plain") for e in decs) != sorted(e.get("plain") for e in encs):
+        ctx.violation("plaintext-not-conserved", {"case": case, "summary": "decrypt outputs and encrypt inputs differ"})
+        return
+
+
+def check_file(ctx, case, fl, r, backup):
+    """Returns the number of distinct secret nodes of this file, or None after a violation."""
+    g, text, target, stale, before_data, leaves0 = fl["g"], fl["text"], fl["target"], fl["stale"], fl["before"], fl["leaves0"]
+    after_bytes = open(target, "rb").read()
+    if fl["no_secret"]:
         ctx.counters["no_secret_files"] = ctx.counters.get("no_secret_files", 0) + 1
         if after_bytes != text.encode():
             ctx.violation("no-secret-file-rewritten", {"case": case, "summary": "bytes changed"})
+            return None
         if os.path.exists(target + ".bak") and not stale:
             ctx.violation("no-secret-file-backed-up", {"case": case, "summary": ".bak appeared"})
-        if log:
-            ctx.violation("no-secret-file-called-eyaml", {"case": case, "summary": "%d eyaml invocations" % len(log)})
-        if any(e.get("write") for e in r["trace"] if e["ev"] == "open"):
+            return None
+        if any(e.get("write") for e in r["trace"] if e["ev"] == "open" and e.get("path") == fl["name"]):
             ctx.violation("no-secret-file-opened-for-writing", {"case": case, "summary": repr(r["trace"])[:200]})
-        return
+            return None
+        return 0
     # ---- reload ---------------------------------------------------------------------------------------
     try:
         after = yp.load(after_bytes.decode())
     except yp.LoadError:
         ctx.violation("rotated-file-does-not-load", {"case": case, "summary": after_bytes[:300].decode(errors="replace")})
-        return
+        return None
     leaves1 = scalar_leaves(after)
     if [l for l, _ in leaves1] != [l for l, _ in leaves0]:
         ctx.violation("structure-changed", {"case": case, "summary": "leaf locations differ after rotation"})
-        return
+        return None
     distinct_secret_nodes = {}
     for (loc, n0), (_, n1), (kind, info) in zip(leaves0, leaves1, g.leaves):
         if kind in ("secret", "alias"):
@@ -241,21 +283,21 @@ def run_case(ctx, rng, box, backup, no_secret=False):
             if new_pt != info:
                 ctx.violation("secret-not-rekeyed/%s" % kind, {"case": case, "summary": "at %r: decrypts under the new key to %r, expected %r ; value %r" % (
                     loc, new_pt, info, str(n1)[:60])})
-                return
+                return None
             if dec("old", n1) is not None:
                 ctx.violation("secret-still-decrypts-under-old-key", {"case": case, "summary": "at %r" % (loc,)})
-                return
+                return None
             distinct_secret_nodes[id(n0)] = True
             if yp.anchor_of(n0) != yp.anchor_of(n1):
                 ctx.violation("secret-anchor-changed", {"case": case, "summary": "at %r: %r -> %r" % (loc, yp.anchor_of(n0), yp.anchor_of(n1))})
-                return
+                return None
         else:
             if kind == "lookalike":
                 ctx.counters["lookalikes_checked"] = ctx.counters.get("lookalikes_checked", 0) + 1
             if yp.scalar_plain(n0) != yp.scalar_plain(n1) or yp.anchor_of(n0) != yp.anchor_of(n1):
                 ctx.violation("non-secret-changed/%s" % kind, {"case": case, "summary": "at %r: %r -> %r" % (loc, n0, n1)})
-                return
-    # keys / order / structure
+                return None
+
     def keys_only(n):
         if isinstance(n, dict):
             return ("map", tuple((str(k), keys_only(v)) for k, v in n.items()))
@@ -264,45 +306,36 @@ def run_case(ctx, rng, box, backup, no_secret=False):
         return "leaf"
     if keys_only(before_data) != keys_only(after):
         ctx.violation("keys-or-order-changed", {"case": case, "summary": "structure differs"})
-        return
+        return None
     # shared secrets stay shared
     ids1 = {}
     for (loc, n0), (_, n1) in zip(leaves0, leaves1):
         ids1.setdefault(id(n0), set()).add(id(n1))
     if any(len(v) > 1 for v in ids1.values()):
         ctx.violation("shared-secret-unshared", {"case": case, "summary": "an anchored secret and its alias became different nodes"})
-        return
+        return None
     if g.anchors:
         ctx.counters["anchored_secret_docs"] = ctx.counters.get("anchored_secret_docs", 0) + 1
     if g.n_folded:
         ctx.counters["folded_secrets"] = ctx.counters.get("folded_secrets", 0) + g.n_folded
-    # ---- protocol log: exactly once ---------------------------------------------------------------------
-    decs = [e for e in log if e["op"] == "decrypt"]
-    encs = [e for e in log if e["op"] == "encrypt"]
-    nsec = len(distinct_secret_nodes)
-    if len(decs) != nsec or len(encs) != nsec:
-        ctx.violation("not-exactly-once", {"case": case, "summary": "%d secret nodes but %d decrypt / %d encrypt invocations" % (
-            nsec, len(decs), len(encs))})
-        return
-    if any(e["code"] != 0 for e in log) or any(e.get("key") != "old" for e in decs) or any(e.get("key") != "new" for e in encs):
-        ctx.violation("wrong-key-used", {"case": case, "summary": repr(log)[:300]})
-        return
-    if sorted(e.get("plain") for e in decs) != sorted(e.get("plain") for e in encs):
-        ctx.violation("plaintext-not-conserved", {"case": case, "summary": "decrypt outputs and encrypt inputs differ"})
-        return
+    if g.n_ctl:
+        ctx.counters["secrets_with_cr_lf_tab"] = ctx.counters.get("secrets_with_cr_lf_tab", 0) + g.n_ctl
     # ---- backup -------------------------------------------------------------------------------------------------
     if backup:
         bak = target + ".bak"
         if not os.path.exists(bak) or open(bak, "rb").read() != text.encode():
             ctx.violation("backup-not-identical", {"case": case, "summary": "backup missing or differs from the pre-image"})
-            return
+            return None
         # the copy must complete before the target is first opened for writing
-        k_copy = [e["k"] for e in r["trace"] if e["ev"] == "shutil.copyfile"]
-        k_write = [e["k"] for e in r["trace"] if e["ev"] == "open" and e.get("write") and e["path"] == "doc.yaml"]
+        k_copy = [e["k"] for e in r["trace"] if e["ev"] == "shutil.copyfile" and os.path.basename(str(e.get("dst", fl["name"] + ".bak"))) == fl["name"] + ".bak"]
+        k_write = [e["k"] for e in r["trace"] if e["ev"] == "open" and e.get("write") and e["path"] == fl["name"]]
         if not k_copy or not k_write or min(k_write) < max(k_copy):
             ctx.violation("target-opened-before-backup-complete", {"case": case, "summary": repr(r["trace"])[:300]})
+            return None
     elif os.path.exists(target + ".bak"):
         ctx.violation("backup-without-option", {"case": case, "summary": ".bak appeared without --backup"})
+        return None
+    return len(distinct_secret_nodes)
 
 
 def run_shard(ctx):
